@@ -1,6 +1,7 @@
 """Properties that are not claimed, with the reason (DESIGN.md section 6)."""
 NOT_APPLICABLE = {
     "C06": "quantifies over task schedules of whole client+broker programs; Kani has no executor or concurrency model and one broker handler already costs minutes of symbolic execution",
+    "C08": "the message parsers (deserialize_message) advance a bytes::BytesMut once per field; measured with Kani/CBMC: one parse of the 5-byte Shutdown frame 3 s, of the 6-byte Sync frame 400-600 s, every larger frame > 15 min, and the serializer side runs out of memory (14 GB) for every frame above ~40 bytes (two ids or several full-width varints) - the round trip and the strict-parsing half of the property cannot be decided and the decidable rest (wire layout of the small message kinds) does not carry it. The generated harnesses (harness/core/messages_gen.rs, tools/gen_messages.py) stay in the tree, unregistered",
     "C15": "fault injection at every transport operation of the async client run loop combined with task schedules; needs an executor and the whole client (std HashMap, mpsc, oneshot) - out of reach of bounded symbolic execution",
     "C16": "quantifies over schemas and runs rustc/proc-macros on generated code; programs cannot be made symbolic",
     "C17": "pest parser, comrak markdown and String processing over arbitrary source text: input-length loops over heap strings, no bounded kernel carries the property",
@@ -8,14 +9,4 @@ NOT_APPLICABLE = {
     "C19": "convergence of client-side views under schedules of the real async client and broker; fold kernels sit on std HashMap in the aldrin crate",
     "C20": "type ids are UUIDv5 (SHA-1) over BTreeMap/String-based serializations; 'equal iff layouts equal' is injectivity modulo SHA-1, which no SAT query in reach decides",
 }
-# planned in DESIGN.md, harnesses not registered yet (kept here so MANIFEST.json stays complete)
-PENDING = {
-    "C01": "planned (DESIGN.md section 3); harnesses not registered yet in this revision",
-    "C02": "planned (DESIGN.md section 3); harnesses not registered yet in this revision",
-    "C03": "planned (DESIGN.md section 3); harnesses not registered yet in this revision",
-    "C04": "planned (DESIGN.md section 3); harnesses not registered yet in this revision",
-    "C07": "planned (DESIGN.md section 3); harnesses not registered yet in this revision",
-    "C10": "planned (DESIGN.md section 3); harnesses not registered yet in this revision",
-    "C11": "planned (DESIGN.md section 3); harnesses not registered yet in this revision",
-    "C13": "planned (DESIGN.md section 3); harnesses not registered yet in this revision",
-}
+PENDING = {}
